@@ -1530,7 +1530,34 @@ func init() {
 }
 
 func c13r15(c *Ctx) {
-	f := rebaseFn(c) // as written: an expanded helper's returns inside a loop would look like jumps out of it
+	// the rebasing method and the helpers it is built from, each as written (an expanded helper's returns inside a
+	// loop would look like jumps out of it)
+	var units []*ir.Func
+	seen := map[*ir.Func]bool{}
+	var collect func(f *ir.Func, depth int)
+	collect = func(f *ir.Func, depth int) {
+		if f == nil || seen[f] || depth > 3 {
+			return
+		}
+		seen[f] = true
+		units = append(units, f)
+		for _, call := range f.Calls(true) {
+			if call.Fn != nil && call.Fn.Pkg() != nil && call.Fn.Pkg().Path() == ir.PkgPath("chain") && !call.Fn.Exported() {
+				collect(c.P.FuncOf(call.Fn), depth+1)
+			}
+		}
+	}
+	collect(rebaseFn(c), 0)
+	n := 0
+	for _, f := range units {
+		n += c13r15unit(c, f)
+	}
+	if n == 0 {
+		ir.Fail("no loop in the rebasing method stores into an input's parent element")
+	}
+}
+
+func c13r15unit(c *Ctx, f *ir.Func) int {
 	g := f.Graph()
 	c.VisitGraph(f)
 	n := 0
@@ -1553,6 +1580,24 @@ func c13r15(c *Ctx) {
 			}
 			if _, isIx := ast.Unparen(rootIndexOf(w.LHS)).(*ast.IndexExpr); isIx {
 				stores = true
+			}
+		}
+		// … or hands the address of an input's parent element to a helper that stores through it
+		// (`confirmEphemeral(id, &parent.StateElement)` inside `for j := range txn.SiacoinInputs`)
+		if !stores {
+			overInputs := false
+			if rs, isRange := loop.(*ast.RangeStmt); isRange && mentionsText(rs.X, "Inputs") {
+				overInputs = true
+			}
+			if overInputs {
+				ir.Walk(body, false, func(y ast.Node) {
+					if u, isAddr := y.(*ast.UnaryExpr); isAddr && u.Op == token.AND && (mentionsText(u.X, "StateElement") || mentionsText(u.X, "Parent")) {
+						if t := f.TypeOf(u); t != nil && (ir.IsNamed(t, ir.PkgPath("types"), "StateElement") || mentionsText(u.X, "Parent")) {
+							// the address must end up in a call within the body (directly or through a local)
+							stores = true
+						}
+					}
+				})
 			}
 		}
 		if !stores {
@@ -1592,9 +1637,7 @@ func c13r15(c *Ctx) {
 		_ = g
 		ob.Check(bad == "", nil, "the loop at %s, which gives the inputs of a transaction their confirmed parent elements, can be left at %s before every input was examined: inputs behind that point keep an unassigned leaf index, and the rebased set is rejected at the target (e.g. a funded transaction whose first input is confirmed and whose second is the change of a parent that has just been mined)", c.P.Pos(loop.Pos()), bad)
 	})
-	if n == 0 {
-		ir.Fail("no loop in the rebasing method stores into an input's parent element")
-	}
+	return n
 }
 
 // rootIndexOf strips selectors down to the first index expression: a.b[i].c.d → a.b[i].
